@@ -46,7 +46,15 @@ func plainDimacs(n int, cnf [][]int) string {
 func genMusCase(r *Rng, tier string) MusCase {
 	n := r.Range(1, 6)
 	var cnf [][]int
-	switch r.Intn(7) {
+	switch r.Intn(8) {
+	case 7: // over-constrained 3-SAT whose clauses repeat a literal: refuted by search, and the certificate check has to treat "1 2 1" as a 2-literal clause
+		n = r.Range(3, 7)
+		cnf = genKSat(r, n, r.Range(4*n, 6*n), 3)
+		for i := range cnf {
+			if r.Chance(1, 3) {
+				cnf[i] = append(cnf[i], cnf[i][r.Intn(len(cnf[i]))])
+			}
+		}
 	case 0: // trivially conflicting units (+ noise)
 		v := r.Range(1, n)
 		cnf = [][]int{{v}, {-v}}
@@ -143,7 +151,7 @@ func countMUSes(n int, cnf [][]int, limit int) int {
 func init() {
 	register(&Prop{
 		ID: "C07",
-		Rule: "CNF problems over 1..6 variables with up to 14 clauses: trivially conflicting units, two disjoint cores, repeated clauses, satisfiable formulas, over-constrained formulas with overlapping cores; each handed (through explain.ParseCNF) to MUS, MUSDeletion, MUSInsertion and MUSMaxSat, on fresh Problem values or one after the other on the same value (then in half of the cases after a usually wrong certificate was checked on it with Problem.Unsat). The result is judged by the verified GS.subMultiset and GS.isMUSB; the receiver is compared before/after. Non-trivial = unsatisfiable input that is not already minimal; distinct = distinct clause list.",
+		Rule: "CNF problems over 1..6 variables with up to 14 clauses: trivially conflicting units, two disjoint cores, repeated clauses, satisfiable formulas, over-constrained formulas with overlapping cores, over-constrained 3-SAT with repeated literals inside clauses; each handed (through explain.ParseCNF) to MUS, MUSDeletion, MUSInsertion and MUSMaxSat, on fresh Problem values or one after the other on the same value (then in half of the cases after a usually wrong certificate was checked on it with Problem.Unsat). The result is judged by the verified GS.subMultiset and GS.isMUSB; the receiver is compared before/after. Non-trivial = unsatisfiable input that is not already minimal; distinct = distinct clause list.",
 		Gens: []Gen{
 			{Name: "mus", Weight: 4, Make: func(r *Rng, tier string) interface{} { return genMusCase(r, tier) }},
 			{Name: "mus-3sat-reuse", Weight: 1, Make: func(r *Rng, tier string) interface{} { return genMusBig(r, tier) }},
